@@ -551,3 +551,30 @@ META["C07"] = dict(
     },
     assumptions=["null given for a field is an invalid value unless the field is Optional"],
 )
+
+META["C08"] = dict(
+    title="Parse, validate, dump and instantiate never modify what they are given",
+    level="exploration",
+    level_text="Boundary recorder with deep before/after snapshots (values, types and identity of every nested mutable container) "
+    "around parse_object (dict, Namespace, with a foreign last key), parse_args (argv list, namespace=), parse_string, validate, "
+    "dump (yaml/json/skip_default/comments), parse_object of a result, merge_config, strip_unknown, instantiate_classes, "
+    "get_defaults, format_help, save and parse_path, on generated parsers of the type grammar (containers inside tuples and "
+    "sets, class specs in lists/dicts/tuples, dict_kwargs) for returning and raising calls; the parser's declared defaults, cwd, "
+    "environ, argparse.Namespace and sys.argv are compared and the audit log is checked (balanced chdir, no write-open by "
+    "read-only operations, no putenv). Freshness: two instantiate_classes calls on one configuration (explicit specs, "
+    "lazy_instance defaults, lists / dicts / tuples of classes, nested holders, class groups) must share no instance and "
+    "construct equally often. Config files reached through symlinked directories, valid and failing.",
+    level_note="Trusted: the snapshot function. Aliasing between a result and parser defaults is not judged.",
+    shards=g(4, 16),
+    budget=g(45, 300),
+    technique="before/after deep-snapshot recorder at the API boundary + audit-hook log + constructor-log freshness monitor",
+    rule="a case is (multiset of argument type skeletons) for generated parsers, (set of class features) for the class parser, "
+    "(path spelling, entry method, validity) for symlinked configs; distinct by hash; each runs 10-20 monitored calls.",
+    gates={
+        "mon.calls_snapshotted": g(3000, 40000), "mon.accepted_configs": g(100, 1500), "mon.instantiate_pairs": g(100, 1500),
+        "mon.instances_checked": g(500, 8000), "mon.merge_config_class_change": g(100, 1500), "mon.symlinked_config_parses": g(80, 1000),
+        "ev.parse_object.raise": g(100, 1000), "ev.validate-invalid.raise": g(50, 500), "ev.dump.yaml.return": g(100, 1000),
+        "ev.instantiate_classes.return": g(200, 2000), "ev.save.return": g(80, 800), "ev.parse_path.raise": g(5, 50),
+    },
+    assumptions=["parse_args(namespace=ns): ns must stay unchanged too"],
+)
